@@ -1,10 +1,10 @@
 # ruff: noqa: I001
 from __future__ import annotations
 from typing import cast
-from collections.abc import Generator
+from collections.abc import Generator, Iterable, Iterator
 from functools import singledispatch
 from typing import Any, IO
-from itertools import chain
+from itertools import chain, groupby
 from pyjelly.options import StreamParameters
 from pyjelly.integrations.generic.generic_sink import (
     GenericStatementSink,
@@ -231,38 +231,41 @@ def graphs_stream_frames(
         yield frame
 
 
-def split_to_graphs(data: Generator[Quad]) -> Generator[GenericStatementSink]:
+class GraphRun:
+    """A run of consecutive quads with the same graph name, read lazily from the input."""
+
+    def __init__(self, identifier: GraphName, quads: Iterator[Quad]) -> None:
+        self.identifier = identifier
+        self._quads = quads
+
+    def __iter__(self) -> Iterator[Triple]:
+        for statement in self._quads:
+            yield Triple(statement.s, statement.p, statement.o)
+
+
+def split_to_graphs(data: Iterable[Quad]) -> Generator[GraphRun]:
     """
     Split a generator of quads to graphs.
 
     Notes:
-        New graph is generated by
-        iterating over statements and yielding one new GenericStatementSink
-        per a sequence of quads with the same g term.
+        A new graph starts with every run of consecutive quads with the same g term.
+        The quads are not collected first: each graph reads its triples from the input
+        while it is being iterated, so it has to be consumed before the next one.
 
     Args:
-        data (Generator[Quad]): generator of quads
+        data (Iterable[Quad]): iterable of quads
 
     Yields:
-        Generator[GenericStatementSink]: generator of GenericStatementSinks,
-        each having triples in store and identifier set.
+        Generator[GraphRun]: one iterable of triples per run,
+        with the graph name as its identifier.
 
     """
-    current_g: GraphName | None = None
-    current_sink: GenericStatementSink | None = None
-    for statement in data:
-        if current_g != statement.g:
-            if current_sink is not None:
-                yield current_sink
+    for graph_name, quads in groupby(data, key=_graph_name):
+        yield GraphRun(graph_name, quads)
 
-            current_g = statement.g
-            current_sink = GenericStatementSink(identifier=current_g)
 
-        assert current_sink is not None
-        current_sink.add(Triple(statement.s, statement.p, statement.o))
-
-    if current_sink is not None:
-        yield current_sink
+def _graph_name(statement: Quad) -> GraphName:
+    return statement.g
 
 
 def guess_options(sink: GenericStatementSink) -> SerializerOptions:
